@@ -233,6 +233,11 @@ def run_case(case, rec, mon=None):
                 rec.count("integer_signals_starting_on_the_type_minimum")
             mode = int(rng.integers(4))
             p = P.Preemphasize(coeff)
+            if j % 5 == 0:
+                from ..common import poke
+
+                poke(p)
+                rec.count("objects_inspected_before_apply")
             if rng.random() < 0.1:
                 p = P.Preemphasize(0.123)
                 p.coeff = coeff  # documented public attribute
